@@ -8,9 +8,9 @@ cd $W || exit 2
 echo "== build with change"; go build ./... || exit 2
 echo "== demo with change (must FAIL)"; go test -count=1 -run "$RX" $PKG > /tmp/seed-$P-with.log 2>&1; echo "rc=$?"
 echo "== existing tests with change (must pass)"; go test -count=1 -skip "$RX" ./internal/pfcp/ ./internal/report/ ./internal/gtpv1/ ./internal/forwarder/perio/ 2>&1 | tail -4
-git stash -q
+git apply -R SEED/patch.diff || { echo "cannot revert the change in the worktree"; exit 2; }
 echo "== demo without change (must PASS)"; go test -count=1 -run "$RX" $PKG > /tmp/seed-$P-without.log 2>&1; echo "rc=$?"
-git stash pop -q
+git apply SEED/patch.diff
 mkdir -p /verif/seeded/$P && cp SEED/patch.diff SEED/notes.txt /verif/seeded/$P/ && cp SEED/*_test.go /verif/seeded/$P/demo_test.go.txt
 cd /repo && git apply /verif/seeded/$P/patch.diff || { echo "patch does not apply to /repo"; exit 2; }
 for c in "$@"; do (cd /verif && ./check $c > /tmp/seed-$P-$c.log 2>&1; echo "check $c rc=$? $(grep -c ^VIOLATION /tmp/seed-$P-$c.log) violations"); done
